@@ -698,3 +698,158 @@ Proof.
   rewrite (render_is_outer_escape f); [reflexivity|].
   eapply Forall_impl; [|exact HV]. intros tv (A & B & _). split; assumption.
 Qed.
+
+(* ---------- the filter among other arguments (list <tag> <filter>, count <filter> group <tag>, ...) ---------- *)
+
+(* a rendered parameter [r] that MPD's NextParam reads as [a], whatever follows after a separator *)
+Definition rparam (it : bytes * bytes) : Prop :=
+  let (r, a) := it in
+  (exists h t, r = h :: t /\ is_ws h = false) /\
+  ends_nonws r /\
+  Forall (fun x => x <> LF /\ x <> 0) r /\
+  forall tail, sep_tail tail -> next_param (r ++ tail) = Some (a, strip_left tail).
+
+Fixpoint gwire (items : list (bytes * bytes)) : bytes :=
+  match items with
+  | [] => []
+  | (r, _) :: rest => SP :: r ++ gwire rest
+  end.
+
+Lemma gwire_sep_tail items : sep_tail (gwire items).
+Proof. destruct items as [|[r a] rest]; [left; reflexivity | right; eexists; reflexivity]. Qed.
+
+Lemma gwire_app x y : gwire (x ++ y) = gwire x ++ gwire y.
+Proof.
+  induction x as [|[r a] x IH]; [reflexivity|]. cbn [app gwire]. rewrite IH, <- app_assoc. reflexivity.
+Qed.
+
+Lemma gparams items : Forall rparam items -> forall fuel, (length items <= fuel)%nat ->
+  params fuel (strip_left (gwire items)) = Some (map snd items).
+Proof.
+  induction 1 as [|[r a] rest ((h & t & E & W) & _ & _ & NP) _ IH]; intros fuel Hf.
+  - cbn [gwire strip_left map]. destruct fuel; reflexivity.
+  - cbn [length] in Hf. destruct fuel as [|fuel]; [lia|].
+    cbn [gwire]. change (strip_left (SP :: r ++ gwire rest)) with (strip_left (r ++ gwire rest)).
+    specialize (NP (gwire rest) (gwire_sep_tail rest)). subst r. cbn [app strip_left] in *. rewrite W.
+    cbn [params]. rewrite NP. rewrite (IH fuel ltac:(lia)). reflexivity.
+Qed.
+
+Lemma gwire_clean items : Forall rparam items -> Forall (fun x => x <> LF /\ x <> 0) (gwire items).
+Proof.
+  induction 1 as [|[r a] rest (_ & _ & C & _) _ IH]; [constructor|]. cbn [gwire].
+  constructor; [split; discriminate|]. apply Forall_app. split; assumption.
+Qed.
+
+Lemma gwire_ends items : items <> [] -> Forall rparam items -> ends_nonws (gwire items).
+Proof.
+  intros Hne H. induction H as [|[r a] rest (_ & E & _) Hr IH]; [congruence|]. cbn [gwire].
+  destruct rest as [|it rest'].
+  - cbn [gwire]. rewrite app_nil_r. apply (ends_app [SP]). exact E.
+  - change (SP :: r ++ gwire (it :: rest')) with ((SP :: r) ++ gwire (it :: rest')). apply ends_app. apply IH. discriminate.
+Qed.
+
+Lemma gwire_len items : (length items <= length (gwire items))%nat.
+Proof.
+  induction items as [|[r a] rest IH]; [cbn; lia|]. cbn [gwire length]. rewrite app_length. lia.
+Qed.
+
+(* the tokenizer's fuel (the length of the text) is enough: every item takes at least one byte *)
+Lemma gwire_fuel items : Forall rparam items -> (length items <= length (strip_left (gwire items)))%nat.
+Proof.
+  intros H. destruct H as [|[r a] rest ((h & t & E & W) & _) _]; [cbn; lia|].
+  cbn [gwire]. change (strip_left (SP :: r ++ gwire rest)) with (strip_left (r ++ gwire rest)).
+  subst r. cbn [app strip_left]. rewrite W. pose proof (gwire_len rest). cbn [length]. rewrite app_length. lia.
+Qed.
+
+(* one request line: a valid command name followed by any rendered parameters *)
+Theorem tokenize_items name items :
+  wf_bytes name -> build name = inr name -> Forall rparam items ->
+  mpd_tokenize (send_bytes (name ++ gwire items)) = Some (name :: map snd items).
+Proof.
+  intros Wn Hb HI. apply build_ok_iff in Hb as (_ & Hfo & Hcs & _).
+  assert (Hname : Forall (fun x => valid_word_char x = true /\ is_ws x = false /\ x <> LF /\ x <> 0) name).
+  { apply Forall_forall. intros x Hin. unfold wf_bytes in Wn. rewrite Forall_forall in Wn, Hcs.
+    destruct (command_charset_plain x (Wn x Hin) (Hcs x Hin)) as (A & B & C & _).
+    split; [apply command_charset_word; auto | auto]. }
+  assert (Hline : mpd_line (send_bytes (name ++ gwire items)) = name ++ gwire items).
+  { apply mpd_line_send.
+    - apply Forall_app. split; [eapply Forall_impl; [|exact Hname]; cbn; tauto | apply gwire_clean; exact HI].
+    - destruct items as [|it rest].
+      + cbn [gwire]. rewrite app_nil_r. destruct (rev name) as [|l rr] eqn:E.
+        * apply (f_equal (@rev N)) in E. rewrite rev_involutive in E. cbn in E. subst name. contradiction.
+        * exists l, rr. split; [exact E|]. assert (In l name) by (apply in_rev; rewrite E; left; reflexivity).
+          rewrite Forall_forall in Hname. apply Hname. assumption.
+      + apply ends_app. apply gwire_ends; [discriminate | exact HI]. }
+  unfold mpd_tokenize. rewrite Hline.
+  destruct name as [|n0 n']; [contradiction|]. cbn [first_ok] in Hfo.
+  assert (Hl : valid_word_first n0 = true) by (apply first_charset_letter; [inversion Wn; assumption | exact Hfo]).
+  cbn [app next_word]. rewrite Hl. inversion Hname as [|? ? _ Hn']; subst.
+  rewrite (scan_word n' (gwire items)); [| eapply Forall_impl; [|exact Hn']; cbn; tauto | apply gwire_sep_tail].
+  rewrite (gparams items HI _ (gwire_fuel items HI)). reflexivity.
+Qed.
+
+(* the two kinds of parameter used here: a string argument of C06, and a filter *)
+Lemma rparam_str a : wf_bytes a -> K a = false ->
+  Forall (fun x => argument_reject x = false) (escape_argument a) -> rparam (escape_argument a, a).
+Proof.
+  intros W HK R. repeat split.
+  - destruct (escape_head a HK) as (h & t & E & Wh). eauto.
+  - apply ends_escape. exact HK.
+  - eapply Forall_impl; [|exact R]. intros x Hx. apply reject_free. exact Hx.
+  - intros tail Ht. apply next_param_escape; assumption.
+Qed.
+
+Lemma rparam_filter e : Forall (fun x => argument_reject x = false) ([DQ] ++ esc e ++ [DQ]) ->
+  rparam ([DQ] ++ esc e ++ [DQ], e).
+Proof.
+  intros R. repeat split.
+  - exists DQ, (esc e ++ [DQ]). split; reflexivity.
+  - rewrite app_assoc. apply ends_app. exists DQ, []. split; reflexivity.
+  - eapply Forall_impl; [|exact R]. intros x Hx. apply reject_free. exact Hx.
+  - intros tail Ht. rewrite <- !app_assoc. cbn [app next_param]. change (DQ =? DQ) with true. cbv iota.
+    apply string_body_esc. exact Ht.
+Qed.
+
+Definition str_items (args : list bytes) : list (bytes * bytes) := map (fun a => (escape_argument a, a)) args.
+
+Lemma wire_gwire args : wire args = gwire (str_items args).
+Proof. induction args as [|a r IH]; [reflexivity|]. cbn [wire str_items map gwire]. fold (str_items r). rewrite IH. reflexivity. Qed.
+
+Lemma str_items_rparam args :
+  Forall wf_bytes args -> Forall (fun a => K a = false) args ->
+  Forall (fun a => Forall (fun x => argument_reject x = false) (escape_argument a)) args ->
+  Forall rparam (str_items args).
+Proof.
+  intros W. revert W. induction args as [|a r IH]; intros W HK HR; [constructor|].
+  inversion W; inversion HK; inversion HR; subst. cbn [str_items map]. constructor; [apply rparam_str; assumption | apply IH; assumption].
+Qed.
+
+(* string arguments before and after the filter: MPD sees exactly name, the arguments before, the
+   expression, the arguments after — and reads the expression back *)
+Theorem filter_roundtrip_args lenient name pre post b0 c0 c1 c f :
+  wf_bytes name -> Forall wf_bytes pre -> Forall wf_bytes post ->
+  Forall (fun a => K a = false) pre -> Forall (fun a => K a = false) post ->
+  build name = inr b0 -> add_all_str b0 pre = Some c0 ->
+  wfb f = true -> Forall value_ok (leaves f) -> argument_filter c0 f = Sent c1 ->
+  add_all_str c1 post = Some c ->
+  mpd_tokenize (send_bytes c) = Some (name :: pre ++ [inner_text f] ++ post) /\
+  mpd_parse_filter_gen lenient (inner_text f) = Some (shape_of f, []).
+Proof.
+  intros Wn Wpre Wpost Kpre Kpost Hb Hpre HW HV HS Hpost. split.
+  2:{ apply parse_filter_inner_text; [exact HW|]. eapply Forall_impl; [|exact HV]. intros tv (A & _ & C). split; assumption. }
+  pose proof Hb as Hb'. apply build_ok_iff in Hb' as (-> & _).
+  apply add_all_str_wire in Hpre as [-> Rpre].
+  unfold argument_filter, render_filter in HS. rewrite (wf_and_ok f HW) in HS.
+  rewrite (render_is_outer_escape f) in HS by (eapply Forall_impl; [|exact HV]; intros tv (A & B & _); split; assumption).
+  set (e := inner_text f) in *.
+  destruct (add_argument_raw_cases (name ++ wire pre) ([DQ] ++ esc e ++ [DQ])) as [(i & E & _)|(E & F)]; rewrite E in HS; [discriminate|].
+  inversion HS; subst c1; clear HS E.
+  apply add_all_str_wire in Hpost as [-> Rpost].
+  replace (((name ++ wire pre) ++ SP :: DQ :: esc e ++ [DQ]) ++ wire post)
+    with (name ++ gwire (str_items pre ++ [([DQ] ++ esc e ++ [DQ], e)] ++ str_items post)).
+  - rewrite tokenize_items; [| exact Wn | exact Hb |].
+    + rewrite !map_app. unfold str_items. rewrite !map_map. cbn [snd map]. rewrite !map_id. reflexivity.
+    + apply Forall_app. split; [apply str_items_rparam; assumption|].
+      apply Forall_app. split; [constructor; [apply rparam_filter; exact F | constructor] | apply str_items_rparam; assumption].
+  - rewrite !gwire_app, <- !wire_gwire. cbn [gwire]. rewrite <- !app_assoc. cbn [app]. reflexivity.
+Qed.
